@@ -106,9 +106,5 @@ def build(chk):
                 pre=lambda I: [AND(R(I['b']).n >= -4, R(I['b']).n <= 4), AND(R(I['c']).n >= -4, R(I['c']).n <= 4), OR(le(rz(Fraction(1, 8)), I['b']), le(I['b'], rz(Fraction(-1, 8))))],
                 desc='solveNormalizedCubic on (x-(c-2b))(x-(c+b))^2, the family whose discriminant is exactly zero in floating point: reports 2 roots, returns the simple and the double root, both distinct',
                 bounds='all real b, c in [-4,4] with |b| >= 1/8; complex sqrt/pow/division modelled by their mathematical definitions; sqrt(3) is the library\'s double constant (tolerances 1e-6 / 1e-4 absorb it)'))
-    def gen_claim(I, O, X): return cubic_claims(I['r'], I['s'], I['t'], O, X)
-    ec.add(Case('O9.solveNormalizedCubic_general.d', 'w_norm_cubic_d', [Val('r'), Val('s'), Val('t'), Out('x', 3)], gen_claim, T='d', setup=cubic_setup, nvalid=0, allow_divzero=True, budget=900, timeout_ms=60000, tier='thorough', core=False,
-                pre=lambda I: [AND(R(I[k]).n >= -4, R(I[k]).n <= 4) for k in 'rst'],
-                desc='solveNormalizedCubic(r,s,t): the returned values are roots and every real root is among them (all three discriminant branches; distinctness is not claimed: nearly coincident roots are legitimately returned twice)', bounds='all real r,s,t in [-4,4]; same complex-libm model'))
-    chk.outside += ['32-bit-wide div/mod identities (bounded to 2^8 quick / 2^12 thorough)', 'root accuracy commensurate with conditioning', 'solveNormalizedCubic outside the double-root family (thorough-tier, mostly undecided)',
+    chk.outside += ['32-bit-wide div/mod identities (bounded to 2^8 quick / 2^12 thorough)', 'root accuracy commensurate with conditioning', 'solveNormalizedCubic outside the double-root family (a general-coefficient case was tried: nlsat decided one claim in 13 minutes and the rest not at all, so it is not registered)',
                     'hsv2rgb(rgb2hsv(c)) == c on the unit cube and integer-element colour scaling: not yet attempted', 'lerpfactor never overflows on IEEE floats (no verdict in 300 s)']
